@@ -251,13 +251,37 @@ def _emit_extracted(u, target, args, block, subst, emit):
     loop_specs = {}
     loop_iter = {}
     loop_text = {}
+    # positional parameter placeholders `$#0`, `$#1`, ... in contract text: the names the REAL signature gives to its (non-self) parameters
+    pnames = []
+    mo = re.search(r'\((.*)\)', sig, re.S)
+    if mo:
+        depth = 0; cur_p = ''; parts_p = []
+        for ch in mo.group(1):
+            if ch in '<([':
+                depth += 1
+            elif ch in '>)]':
+                depth -= 1
+            if ch == ',' and depth == 0:
+                parts_p.append(cur_p); cur_p = ''
+            else:
+                cur_p += ch
+        parts_p.append(cur_p)
+        for pp in parts_p:
+            pp = pp.strip()
+            if not pp or re.match(r'(&\s*(mut\s+)?)?(mut\s+)?self\b', pp):
+                continue
+            mn = re.match(r'(?:mut\s+)?(\w+)\s*:', pp)
+            if mn:
+                pnames.append(mn.group(1))
+    def _pos(text):
+        return re.sub(r'\$#(\d+)', lambda m_: pnames[int(m_.group(1))] if int(m_.group(1)) < len(pnames) else m_.group(0), text)
     for kind, arg, lines, where in sections:
-        text = subst('\n'.join(lines)).rstrip()
+        text = _pos(subst('\n'.join(lines)).rstrip())
         if kind == 'spec':
             spec = text
         elif kind == 'top':
             inserts.append((1, '\n' + text + '\n', 'top'))
-        elif kind in ('after', 'before'):
+        elif kind in ('after', 'before', 'after_stmt'):
             m = re.match(r'"(.*)"\s*(#(\d+))?\s*$', arg)
             if not m:
                 raise ExtractError(f'{where}: bad anchor syntax')
@@ -265,7 +289,26 @@ def _emit_extracted(u, target, args, block, subst, emit):
             pos = find_stmt(body, lit, which)
             if pos is None:
                 raise ExtractError(f'{where}: lost anchor `{lit}` in {relpath}::{fname}')
-            inserts.append((pos[1] if kind == 'after' else pos[0], '\n' + text + '\n', kind))
+            if kind == 'after_stmt':
+                # the anchor is a PREFIX of a statement: insert after the `;` that ends it (bracket depth 0 relative to the prefix start)
+                from rx import lex as _lexS
+                depth = 0; endpos = None
+                for t in _lexS(body[pos[0]:]):
+                    if t.kind == 'p':
+                        if t.text in '([{':
+                            depth += 1
+                        elif t.text in ')]}':
+                            depth -= 1
+                            if depth < 0:
+                                break
+                        elif t.text == ';' and depth == 0:
+                            endpos = pos[0] + t.end
+                            break
+                if endpos is None:
+                    raise ExtractError(f'{where}: lost anchor `{lit}` (no statement end) in {relpath}::{fname}')
+                inserts.append((endpos, '\n' + text + '\n', 'after'))
+            else:
+                inserts.append((pos[1] if kind == 'after' else pos[0], '\n' + text + '\n', kind))
         elif kind == 'loop':
             m = re.match(r'(\d+)(\s+same\s+(\d+))?(\s+iter=(\w+))?\s*$', arg)
             if not m:
